@@ -31,6 +31,10 @@ THEOREMS = [
     "PorepyVerif.C10.checkConv_exclusive",
     "PorepyVerif.C10.checkConvRes_both_flags",
     "PorepyVerif.C10.noBoth_of_divOverrules",
+    "PorepyVerif.C10.raises_only_through_failure_hook",
+    "PorepyVerif.C10.tm_raise_means_budget_exhausted",
+    "PorepyVerif.C10.linear_failure_raises_untouched",
+    "PorepyVerif.C10.linear_single_iteration",
 ]
 LEAN_DIRS = ["C09"]  # the time manager of the model is C09's (imported)
 LEAN_MODULES = ["PorepyVerif.C10.Props"]
@@ -47,6 +51,9 @@ RULE = ("one case = one complete run of pp.run_time_dependent_model on a compres
         "nothing forced, max_iterations small so that real Newton fails; 30% of these with a finite nl_divergence_tol so that the real "
         "check_convergence raises both flags). Stratum: 35% of the inject cases have a solve whose FIRST iteration diverges through a NaN "
         "increment (no increment norm logged). 20% of the cases have a time-dependent boundary value g(t)=t. "
+        "Mode linear (12%): _is_nonlinear_problem()=False so that _choose_solver picks pp.LinearSolver; one injected solution per step, NaN raises. "
+        "Strata (45% of the cases, counted in input_distribution.strata): one-cell grid, windows 1x1, deep windows, single solve, max_iterations=0, "
+        "all-converge, the same step rejected until the budget is used up, all-zero increments, increments scaled by 2^30 / 2^-30. "
         "non-trivial = at least one failed and one accepted solve; distinct = distinct cases")
 TRUSTED = [
     "modelled, not verified: assembly, discretisation, linear solve (executed, their result is the tape's increment in the inject modes), "
@@ -70,6 +77,8 @@ EXPLANATION = ("FULL for the control flow: model = NewtonSolver.solve loop + hoo
                "Correspondence compares the complete event trace of the real run (every hook, stored arrays, storage depths, boundary data, time, dt, "
                "time index) with the model's.")
 ASSUMPTIONS = [
+    "the decidable hypotheses of ends_at_final_time_or_raises_tm (C09.Admissible, dt_min > 0, nonlinear solver, window lengths >= 1, tapes long "
+    "enough, tape-count bound) are evaluated by the driver on every case (output field hyp); when all hold the model must end finished/raised",
     "iterate_indices and time_step_indices are 0..n-1 with n >= 1",
     "NoBoth: divergence overrules convergence (the model's default, the repaired solver) or no tape entry raises both flags; "
     "for ends_at_final_time_or_raises_tm: C09.Admissible parameters (what the TimeManager constructor accepts, adaptive, initial step fits the "
@@ -115,6 +124,7 @@ def _gen_tm(rng):
     raise RuntimeError("no time manager parameters found")
 
 
+_STRATA = ["one-cell", "window-1x1", "deep-windows", "single-solve", "max-it-0", "all-converge", "repeat-failures", "zero-increments", "extreme-scale"]
 _SMALL = [F(0), F(1, 4), F(-1, 4), F(1, 2), F(-1, 2), F(1, 8)]
 _BIG = [F(3, 2), F(2), F(-2), F(3), F(5, 2), F(-3, 2), F(4)]  # |q| = 1 would sit on check_convergence's threshold
 _ANY = _SMALL + _BIG
@@ -152,7 +162,10 @@ def _gen_solve_tape(rng, mode, max_it, p_fail):
 
 
 def gen_case(rng, tier):
-    mode = rng.choices(["inject-check", "inject-forced", "physical-forced", "physical-real"], [45, 25, 20, 10])[0]
+    mode = rng.choices(["inject-check", "inject-forced", "physical-forced", "physical-real", "linear"], [38, 22, 18, 10, 12])[0]
+    stratum = rng.choice(_STRATA) if rng.random() < 0.45 else None
+    if stratum in ("extreme-scale", "zero-increments") and mode != "inject-forced":
+        mode = "inject-forced"
     tm = _gen_tm(rng)
     physical = mode.startswith("physical")
     max_it = rng.choice([0, 1, 1, 2, 2, 3, 4] + ([5, 6] if tier == "thorough" else []))
@@ -166,6 +179,24 @@ def gen_case(rng, tier):
         "bc": "time" if rng.random() < 0.2 else "const",
     }
     n_solves = rng.choice([40] * 9 + [1, 2, 3, 6])
+    if stratum:
+        case["stratum"] = stratum
+    if stratum == "one-cell":
+        case["grid"] = [1, 1]
+    elif stratum == "window-1x1":
+        case["n_it"] = case["n_ts"] = 1
+    elif stratum == "deep-windows":
+        case["n_ts"] = 3
+        case["n_it"] = 1 if physical and max_it > 1 else 3 if not physical else 2
+    elif stratum == "single-solve":
+        n_solves = 1
+    elif stratum == "max-it-0":
+        case["max_it"] = max_it = 0
+    if mode == "linear":
+        case["max_it"] = 0
+        case["tapes"] = [[{"inc": "nan" if rng.random() < (0.0 if stratum == "all-converge" else 0.12) else frac(rng.choice(_ANY)), "c": False, "d": False}]
+                         for _ in range(n_solves)]
+        return case
     if mode == "physical-real":
         case["max_it"] = rng.choice([1, 2, 3])
         case["n_it"] = 1
@@ -175,7 +206,24 @@ def gen_case(rng, tier):
             case["tol"], case["div_tol"] = rng.choice([("1e3", "1e-30"), ("1e-3", "1e-9"), ("1e-2", "1e-6")])
         return case
     p_fail = rng.choice([0.0, 0.15, 0.25, 0.25, 0.35, 0.5, 0.8])
+    if stratum == "all-converge":
+        p_fail = 0.0
     case["tapes"] = [_gen_solve_tape(rng, mode, max_it, p_fail) for _ in range(n_solves)]
+    if stratum == "repeat-failures":  # the same step is rejected again and again until the budget is used up
+        k0 = rng.randrange(min(3, n_solves))
+        for i in range(k0, min(n_solves, k0 + tm["recomp_max"] + 1)):
+            case["tapes"][i] = _gen_solve_tape(rng, mode, max_it, 1.0)
+    if stratum == "zero-increments":
+        for t in case["tapes"]:
+            for e in t:
+                if e["inc"] != "nan":
+                    e["inc"] = "0"
+    if stratum == "extreme-scale":
+        sc = rng.choice([F(2) ** 30, F(1, 2 ** 30)])
+        for t in case["tapes"]:
+            for e in t:
+                if e["inc"] != "nan":
+                    e["inc"] = frac(F(e["inc"]) * sc)
     if mode.startswith("inject") and rng.random() < 0.35:  # stratum: NaN divergence at the FIRST iteration of a solve
         i = rng.randrange(min(3, n_solves))
         case["tapes"][i] = [{"inc": "nan", "c": False, "d": mode == "inject-forced"}]
@@ -258,6 +306,9 @@ def _classes():
                 return np.full(bg.num_cells, float(self.time_manager.time))
             return np.full(bg.num_cells, 1.0)
 
+        def _is_nonlinear_problem(self):
+            return self.rec.case["mode"] != "linear"  # "linear": _choose_solver picks pp.LinearSolver
+
         # ---- hooks
         def before_nonlinear_loop(self):
             self.rec.start_solve()
@@ -292,6 +343,8 @@ def _classes():
                 self.rec.error = ("crashed", type(e).__name__)
                 raise
             self.rec.log(self, "conv", self.nonlinear_solver_statistics.num_iteration)
+            if self.rec.case["mode"] == "linear":  # LinearSolver.solve returns True right after this hook
+                self.rec.log(self, "ret", self.nonlinear_solver_statistics.num_iteration, c=True)
 
         def after_nonlinear_failure(self):
             tm = self.time_manager
@@ -319,7 +372,7 @@ class _Recorder:
 
     def __init__(self, case):
         self.case = case
-        self.inject = case["mode"].startswith("inject")
+        self.inject = case["mode"].startswith("inject") or case["mode"] == "linear"
         self.forced = case["mode"] in ("inject-forced", "physical-forced")
         self.real_flags = case["mode"] == "physical-real"
         self.tapes = case.get("tapes")
@@ -400,8 +453,10 @@ def _real_run(case):
             fluid = pp.FluidComponent(compressibility=0.5 if physical else 1.0 / 16, density=1.0, viscosity=1.0)
             solid = pp.SolidConstants(porosity=0.5, permeability=0.25 if physical else 1.0)
             params = {"material_constants": {"fluid": fluid, "solid": solid}, "time_manager": tm, "times_to_export": [],
-                      "max_iterations": case["max_it"], "nonlinear_solver": cl["Solver"], "c10": rec,
+                      "max_iterations": case["max_it"], "c10": rec,
                       "nl_convergence_tol": float(case.get("tol", "1e-10"))}
+            if case["mode"] != "linear":
+                params["nonlinear_solver"] = cl["Solver"]
             if "div_tol" in case:
                 params["nl_divergence_tol"] = float(case["div_tol"])
             model = cl["TapeModel"](params)
@@ -501,7 +556,7 @@ def model_ops(case):
     tm = dict(case["tm"])
     tm["rtol"], tm["atol"] = frac(1e-10), frac(1e-16)
     return [{"op": "run", "tm": tm, "max_it": case["max_it"], "n_it": case["n_it"], "n_ts": case["n_ts"], "init": case["init"],
-             "div_overrules": True, "check_tol": case["tol"] if case["mode"] == "inject-check" else None, "tapes": _tapes_for_model(case)}]
+             "div_overrules": True, "linear": case["mode"] == "linear", "check_tol": case["tol"] if case["mode"] == "inject-check" else None, "tapes": _tapes_for_model(case)}]
 
 
 def model_decode(outs, case):
@@ -513,7 +568,7 @@ def compare(impl, model, case):
         return f"real run crashed in the harness: {impl['harness_exc']}"
     if "err" in model and "events" not in model:
         return f"driver error {model}"
-    inject = case["mode"].startswith("inject")
+    inject = case["mode"].startswith("inject") or case["mode"] == "linear"
     bc_map = (lambda q: q) if case["bc"] == "time" else (lambda q: "1")
     ie, me = impl["events"], model["events"]
     for n, (a, b) in enumerate(zip(ie, me)):
@@ -541,6 +596,8 @@ def compare(impl, model, case):
             return f"{where}: clock (t, dt, index) {(a['t'], a['dt'], a['ti'])} vs model {(b['t'], b['dt'], b['ti'])}"
     if len(ie) != len(me):
         return f"{len(ie)} events vs {len(me)} in the model (next: {(ie + me)[min(len(ie), len(me))]['e']})"
+    if all(model["hyp"].values()) and model["status"] not in ("finished", "raised"):
+        return f"model contradicts ends_at_final_time_or_raises_tm: hypotheses hold, status {model['status']}"
     if (impl["status"], impl["err"]) != (model["status"], model["err"]):
         return f"status {(impl['status'], impl['err'])} vs model {(model['status'], model['err'])}"
     if impl["n_accepted"] + 1 != len(model["accepted"]):
@@ -594,7 +651,7 @@ def oracle(case):
                             f"after_nonlinear_convergence nor after_nonlinear_failure ran: iterate {last['its'][0]} vs time step 0 {last['tss'][0]}, the time loop goes on",
                     "key": "both-flags-returns-true-without-hooks"}
         if last["e"] == "ret" and last["c"]:  # converged step
-            conv_it = rec_converged(evs)
+            conv_it = rec_converged(evs, linear=case["mode"] == "linear")
             if conv_it is None:
                 return {"what": f"solve {s} returned True although check_convergence never reported convergence", "key": "returned-true-without-convergence"}
             if not eq(last["its"][0], conv_it):
@@ -626,7 +683,9 @@ def oracle(case):
         elif last["e"] == "raise":
             pf = rec.pre_failure
             tm = case["tm"]
-            exhausted = pf["constant"] or pf["recomp"] >= tm["recomp_max"] or pf["dt"] == float(F(tm["dt_min"]))
+            exhausted = pf["constant"] or pf["recomp"] >= tm["recomp_max"] or pf["dt"] == float(F(tm["dt_min"])) or case["mode"] == "linear"
+            if case["mode"] == "linear" and not (eq(last["its"][0], accepted[0]) and all(eq(a, b) for a, b in zip(last["tss"], window))):
+                return {"what": f"linear solve {s} failed and changed the stored iterate/time steps before raising", "key": "linear-failure-touched-state"}
             if not exhausted:
                 return {"what": f"solve {s} failed and the run raised {rec.status[1]} although the recomputation budget was not exhausted ({pf})", "key": "unexpected-raise"}
         elif last["e"] == "crash":
@@ -639,8 +698,12 @@ def oracle(case):
     return None
 
 
-def rec_converged(evs):
-    """the iterate at the moment check_convergence reported convergence in this solve"""
+def rec_converged(evs, linear=False):
+    """the iterate at the moment check_convergence reported convergence in this solve (LinearSolver checks
+    before it applies the solution: there it is the iterate after the one after_nonlinear_iteration)"""
+    if linear:
+        its = [e["its"][0] for e in evs if e["e"] == "iter"]
+        return its[-1] if its and any(e["e"] == "check" and e["c"] for e in evs) else None
     for e in evs:
         if e["e"] == "check" and e["c"]:
             return e["its"][0]
@@ -684,6 +747,12 @@ def stats(cases, impl_outs):
                 solves += 1
             if e["e"] == "check" and e["c"] and e["d"]:
                 ends["both"] += 1
-    return {"modes": modes, "final_status": status, "newton_solves": solves, "solve_ends": ends,
+    strata = {}
+    hyp_all = 0
+    for c in cases:
+        strata[c.get("stratum") or "none"] = strata.get(c.get("stratum") or "none", 0) + 1
+    strata["nan-at-first-iteration"] = sum(1 for c in cases if any(t and t[0]["inc"] == "nan" for t in c.get("tapes", [])))
+    strata["both-flags"] = sum(1 for c in cases if "div_tol" in c or any(e["c"] and e["d"] for t in c.get("tapes", []) for e in t))
+    return {"strata": strata, "modes": modes, "final_status": status, "newton_solves": solves, "solve_ends": ends,
             "time_dependent_bc": sum(1 for c in cases if c["bc"] == "time"), "constant_dt": sum(1 for c in cases if c["tm"]["constant_dt"]),
             "window_lengths": {f"{a}x{b}": sum(1 for c in cases if (c["n_it"], c["n_ts"]) == (a, b)) for a in (1, 2, 3) for b in (1, 2, 3)}}
